@@ -242,6 +242,16 @@ func runPure(hdr Header, c any, src string) CaseResult {
 	loaded := snapAll()
 	rs2, err2 := s.Resolve(opts())
 	res.Evals++
+	// further Resolves (map iteration order differs from call to call)
+	var more []*jsonschema.Resolved
+	for k := 0; k < 6 && err1 == nil; k++ {
+		r, e := s.Resolve(opts())
+		res.Evals++
+		if e != nil {
+			return fail("resolve-nondeterministic", "nil", e.Error(), "resolving the same schema again gave another result")
+		}
+		more = append(more, r)
+	}
 	if (err1 == nil) != (err2 == nil) {
 		return fail("resolve-nondeterministic", errText(err1), errText(err2), "resolving the same schema again gave another result")
 	}
@@ -266,6 +276,12 @@ func runPure(hdr Header, c any, src string) CaseResult {
 		res.Evals += 3
 		if a != b || a != c2 {
 			return fail("validate-nondeterministic", a, []bool{b, c2}, "validating the same instance again gave another verdict: "+ij)
+		}
+		for _, r := range more {
+			res.Evals++
+			if (r.Validate(v) == nil) != a {
+				return fail("resolve-nondeterministic", a, !a, "another Resolve of the same schema gives another verdict for "+ij)
+			}
 		}
 		if dump(v) != ib {
 			return fail("validate-modifies-instance", ib, dump(v), "Validate modified the instance")
